@@ -4,6 +4,7 @@ import (
 	"errors"
 	"io"
 	"net"
+	"os"
 	"sync"
 	"time"
 )
@@ -76,6 +77,7 @@ type SimConn struct {
 	laddr, raddr net.Addr
 	start        time.Time
 	rdeadline    time.Time // honoured by Read on the fake clock (zero = none)
+	wdeadline    time.Time // honoured by a stalled Write on the fake clock
 	Timeouts     int
 }
 
@@ -131,7 +133,7 @@ func (c *SimConn) Read(p []byte) (int, error) {
 				c.Timeouts++
 				c.mu.Unlock()
 				c.e.Fault("read-timeout")
-				return 0, &simTimeoutErr{}
+				return 0, os.ErrDeadlineExceeded
 			}
 			// a deadline is pending: wait on the fake clock as well (not a seam park:
 			// a timer wait is durable but ends without a waker)
@@ -244,7 +246,35 @@ func (c *SimConn) Write(p []byte) (int, error) {
 			c.mu.Unlock()
 			c.e.Fault("write-stall")
 			c.e.Poke()
-			<-ch
+			if dl := c.wdeadlineGet(); !dl.IsZero() {
+				// a write deadline is armed: the stall ends at the deadline at the latest
+				until := time.Until(dl)
+				if until < 0 {
+					until = 0
+				}
+				tm := time.NewTimer(until)
+				select {
+				case <-ch:
+					tm.Stop()
+				case <-tm.C:
+					c.mu.Lock()
+					if c.resume == ch {
+						c.resume = nil
+						c.e.ParkEnd(true)
+					}
+					c.stalled = false
+					rec.N = k
+					rec.Err = "write deadline exceeded"
+					rec.End = time.Since(c.start)
+					c.Writes = append(c.Writes, rec)
+					c.mu.Unlock()
+					c.e.Fault("write-timeout")
+					c.e.Poke()
+					return k, os.ErrDeadlineExceeded
+				}
+			} else {
+				<-ch
+			}
 			c.mu.Lock()
 			c.stalled = false
 			if c.closed {
@@ -388,7 +418,18 @@ func (c *SimConn) SetReadDeadline(t time.Time) error {
 	c.mu.Unlock()
 	return nil
 }
-func (c *SimConn) SetWriteDeadline(t time.Time) error { return nil }
+func (c *SimConn) SetWriteDeadline(t time.Time) error {
+	c.mu.Lock()
+	c.wdeadline = t
+	c.mu.Unlock()
+	return nil
+}
+
+func (c *SimConn) wdeadlineGet() time.Time {
+	c.mu.Lock()
+	defer c.mu.Unlock()
+	return c.wdeadline
+}
 
 var _ net.Conn = (*SimConn)(nil)
 
